@@ -72,6 +72,7 @@ def _worker(args):
     from worlds import get_world
     world = get_world(world_name)
     out = []
+    agg = _empty_agg()
     for i in indices:
         faulthandler.dump_traceback_later(RUN_TIMEOUT_S, exit=True)
         try:
@@ -84,46 +85,62 @@ def _worker(args):
         finally:
             faulthandler.cancel_dump_traceback_later()
         if "stats" in r:
-            r["stats"] = r["stats"].as_dict()
+            sd = r.pop("stats").as_dict()
+            r["nontrivial"] = bool(sd["work"] > 0 and (sum(sd["faults"].values()) > 0 or
+                                                       not world.fault_kinds))
+            r["cycles"] = sd["cycles"]
+            _fold(agg, sd)
         out.append(r)
-    return out
+    return {"runs": out, "agg": agg}
+
+
+def _empty_agg():
+    return {"faults": {}, "probes": {}, "states": {}, "cycles": 0, "steps": 0, "work": 0,
+            "checks": 0}
+
+
+def _fold(tot, s):
+    for k in ("faults", "probes"):
+        for name, n in s[k].items():
+            tot[k][name] = tot[k].get(name, 0) + n
+    for name, sts in s["states"].items():
+        tot["states"].setdefault(name, set()).update(sts)
+    for k in ("cycles", "steps", "work", "checks"):
+        tot[k] += s[k]
 
 
 def run_batch(world, prop, verif_seed, n_runs, jobs, keep_first=3):
     """Returns list of per-run results in run-index order (independent of worker count)."""
-    chunk = max(1, min(16, n_runs // (jobs * 4) or 1))
+    chunk = max(1, min(64, n_runs // (jobs * 8) or 1))
     tasks = [(world.name, prop, verif_seed, list(range(s, min(n_runs, s + chunk))), keep_first)
              for s in range(0, n_runs, chunk)]
     results = []
+    agg = _empty_agg()
     if jobs <= 1:
         for t in tasks:
-            results.extend(_worker(t))
+            part = _worker(t)
+            results.extend(part["runs"])
+            _fold(agg, part["agg"])
     else:
         ctx = multiprocessing.get_context("fork")
         with cf.ProcessPoolExecutor(max_workers=jobs, mp_context=ctx) as ex:
             try:
                 for part in ex.map(_worker, tasks):
-                    results.extend(part)
+                    results.extend(part["runs"])
+                    _fold(agg, part["agg"])
             except cf.process.BrokenProcessPool as e:
                 raise HarnessError(f"worker died (watchdog or crash): {e}") from e
     results.sort(key=lambda r: r["i"])
+    run_batch.last_agg = agg
     return results
 
 
-def merge_stats(results):
-    tot = {"faults": {}, "probes": {}, "states": {}, "cycles": 0, "steps": 0, "work": 0,
-           "checks": 0}
-    for r in results:
-        s = r.get("stats")
-        if not s:
-            continue
-        for k in ("faults", "probes"):
-            for name, n in s[k].items():
-                tot[k][name] = tot[k].get(name, 0) + n
-        for name, sts in s["states"].items():
-            tot["states"].setdefault(name, set()).update(sts)
-        for k in ("cycles", "steps", "work", "checks"):
-            tot[k] += s[k]
+def merge_stats(agg, extra):
+    tot = _empty_agg()
+    _fold(tot, agg)
+    for r in extra:
+        if r.get("stats"):
+            _fold(tot, r["stats"])
     return tot
 
 
@@ -227,14 +244,13 @@ def check(world, prop, tier, verif_seed, n_runs, jobs, level_note=None):
 
 def write_evidence(world, prop, tier, verif_seed, results, extra, known_hit, new_violations,
                    wall, jobs):
-    tot = merge_stats(results + extra)
+    tot = merge_stats(getattr(run_batch, "last_agg", _empty_agg()), extra)
     executed = [r for r in results if r["status"] in ("ok", "violation")]
     # distinct & non-trivial: distinct (config, ops, history) digests among runs that completed
     # at least one operation/transaction AND in which at least one fault kind actually fired.
     nontrivial = set()
     for r in executed:
-        s = r["stats"]
-        if s["work"] > 0 and (sum(s["faults"].values()) > 0 or not world.fault_kinds):
+        if r.get("nontrivial"):
             nontrivial.add((r["config_digest"], r["ops_digest"], r["digest"]))
     samples = []
     for r in results[:3]:
